@@ -13,7 +13,7 @@ import numpy as np
 
 from mc import enum as E
 from mc import seams
-from mc.runner import Result, horizon, Horizon
+from mc.runner import Result, horizon, Horizon, scratch_dir
 
 ID = "C18"
 TITLE = "split/merge/load/parse/convert preserve every sample"
@@ -186,7 +186,12 @@ def conv_case(prog):
     from opfython.stream import loader, parser
     from opfython.core import Subgraph
     ids, labels, feats = prog["ids"], prog["labels"], prog["features"]
-    tmpdir = tempfile.mkdtemp(prefix="c18-", dir="/var/tmp")
+    # the SAME paths are re-used for every dataset of a run (a later conversion overwrites
+    # the earlier files): results must depend on the file contents, not on the path
+    own = scratch_dir() == "/var/tmp"      # stand-alone replay: private directory, removed below
+    tmpdir = tempfile.mkdtemp(prefix="c18-", dir="/var/tmp") if own else \
+        os.path.join(scratch_dir(), "c18-conv-%d" % os.getpid())
+    os.makedirs(tmpdir, exist_ok=True)
     try:
         p = os.path.join(tmpdir, "a.dat")
         write_opf(p, ids, labels, feats)
@@ -233,7 +238,8 @@ def conv_case(prog):
             return "the three formats differ: %r" % (outs,), "formats differ"
         return None, None
     finally:
-        shutil.rmtree(tmpdir, ignore_errors=True)
+        if own:
+            shutil.rmtree(tmpdir, ignore_errors=True)
 
 
 def conv_programs(shard, seed):
